@@ -150,3 +150,41 @@ impl notify::EventHandler for NotifyEventHandler {
         }
     }
 }
+
+/// Verification hooks: access to the private watcher pieces.
+#[cfg(assets_manager_verif)]
+#[allow(missing_docs, missing_debug_implementations)]
+pub mod verif_hooks {
+    use super::*;
+
+    /// The private `id_of_path`, with a fresh `IdBuilder`.
+    pub fn id_of_path(root: &Path, path: &Path) -> Option<OwnedDirEntry> {
+        super::id_of_path(&mut IdBuilder::default(), root, path)
+    }
+
+    /// The real notify event handler, bound to a given `EventSender`.
+    pub struct Handler(NotifyEventHandler);
+
+    impl Handler {
+        pub fn new(
+            roots: Vec<PathBuf>,
+            events: crate::hot_reloading::EventSender,
+            watcher: Option<notify::RecommendedWatcher>,
+        ) -> Self {
+            Handler(NotifyEventHandler {
+                roots,
+                events,
+                id_builder: IdBuilder::default(),
+                watcher,
+            })
+        }
+
+        pub fn handle_event(&mut self, event: notify::Result<notify::Event>) {
+            notify::EventHandler::handle_event(&mut self.0, event)
+        }
+
+        pub fn has_watcher(&self) -> bool {
+            self.0.watcher.is_some()
+        }
+    }
+}
